@@ -301,6 +301,12 @@ pub fn pick_capacity(rng: &mut Rng) -> usize {
 pub fn gen_wire_plan(prop: Prop, seed: u64, tier: Tier) -> WirePlan {
     let mut rng = Rng::new(seed ^ 0x6e65_7067);
     let prof = profile(prop);
+    let mut prof = prof;
+    if tier == Tier::Thorough {
+        // Deeper bounds in the thorough tier: one more connection, scripts up to twice as long.
+        prof.actors.1 += 1;
+        prof.ops.1 *= 2;
+    }
     let n_actors = rng.range(prof.actors.0, prof.actors.1);
     let mut actors = Vec::new();
 
@@ -381,7 +387,6 @@ pub fn gen_wire_plan(prop: Prop, seed: u64, tier: Tier) -> WirePlan {
     } else {
         SchedKind::Pct
     };
-    let _ = tier;
     WirePlan {
         seed,
         actors,
@@ -395,5 +400,41 @@ pub fn gen_wire_plan(prop: Prop, seed: u64, tier: Tier) -> WirePlan {
         } else {
             Teardown::BrokerShutdown
         },
+        fault_point: None,
     }
+}
+
+/// C09: fault enumeration. All variants of one base share the generated program; variant v ends
+/// one victim connection in way v % 5 at a script position that sweeps the whole script as v grows.
+pub fn gen_c09_plan(seed: u64, tier: Tier, index: u64, batch_seed: u64) -> WirePlan {
+    let per_kind: u64 = match tier {
+        Tier::Quick => 4,
+        Tier::Thorough => 24,
+    };
+    let points = per_kind * ENDINGS.len() as u64;
+    let base = index / points;
+    let variant = index % points;
+    let mut plan = gen_wire_plan(Prop::C09, crate::rng::run_seed(batch_seed ^ 0x0909, base), tier);
+    plan.seed = seed; // schedule, hash order and transport behaviour differ per variant
+
+    let candidates: Vec<usize> = (0..plan.actors.len()).filter(|i| !plan.actors[*i].script.is_empty()).collect();
+    if candidates.is_empty() {
+        return plan;
+    }
+    let mut vr = Rng::new(crate::rng::run_seed(batch_seed ^ 0x7669, base));
+    let victim = candidates[vr.below(candidates.len())];
+    let script = &mut plan.actors[victim].script;
+    script.retain(|op| !op.k.is_ending());
+    let len = script.len() as u64;
+    let kind = ENDINGS[(variant % ENDINGS.len() as u64) as usize];
+    let j = variant / ENDINGS.len() as u64;
+    let pos = if per_kind <= 1 { 0 } else { (j * len) / (per_kind - 1) };
+    script.insert(pos as usize, Op::new(kind, 0, 0, 0, 0));
+    let mut h = crate::rng::Fnv::new();
+    h.u64(base);
+    h.u64(victim as u64);
+    h.u64(pos);
+    h.u64(kind as u8 as u64);
+    plan.fault_point = Some((h.0, base, (len + 1) * ENDINGS.len() as u64));
+    plan
 }
